@@ -4,3 +4,7 @@ package mapr
 
 // VerifSets exposes the aggregate sets of a group set (overlay only).
 func (g *GroupSet) VerifSets() map[string]*AggregateSet { return g.sets }
+
+// VerifTakeSemaphore / VerifReleaseSemaphore: another server's merge is in flight.
+func (g *GlobalGroupSet) VerifTakeSemaphore()    { g.semaphore <- struct{}{} }
+func (g *GlobalGroupSet) VerifReleaseSemaphore() { <-g.semaphore }
